@@ -128,13 +128,13 @@ class eval_abs(object):
 
     def my_bsf(self, a, default_val=0):
         for i in range(32):
-            if a & (1<<i):
+            if int(a) & (1<<i):
                 return i
         return default_val
 
     def my_bsr(self, a, op_size, default_val = 0):
         for i in range(op_size-1, -1, -1):
-            if a & (1<<i):
+            if int(a) & (1<<i):
                 return i
         return default_val
 
@@ -495,10 +495,15 @@ class eval_abs(object):
 
 
     def eval_op_bsf(self, args, op_size, cast_int):
+        if len(args) == 1:
+            # form emitted by the x86 lifter: no explicit value for a zero source
+            return self.my_bsf(args[0])
         ret_value = self.my_bsf(args[1], args[0])
         return ret_value
 
     def eval_op_bsr(self, args, op_size, cast_int):
+        if len(args) == 1:
+            return self.my_bsr(args[0], op_size)
         ret_value = self.my_bsr(args[1], op_size, args[0])
         return ret_value
 
